@@ -121,6 +121,7 @@ def run():
                              {'input': text, 'expected': want, 'observed': got, 'clause': 'Inline.links-and-emphasis' if not got.startswith('EXCEPTION') else 'Emphasis.failure'})
     ck.extra['strings_with_brackets'] = n_links
     inline_scan_layer(ck, m, quick)
+    link_syntax_layer(ck, m, quick)
     ck.extra['exhaustive_strings'] = n_exh
     # random strings over the wide alphabet: TLC computes the expected structure of their class strings in batch
     n_rand = 4000 if quick else 100000
@@ -205,6 +206,46 @@ def inline_scan_layer(ck, m, quick):
         raise core.MachineryError('InlineScan.tla exported only %d strings' % n)
     ck.extra['inline_scan_strings'] = n
     ck.extra['inline_scan_unsettled_not_judged'] = skipped
+
+
+LINK_ALPHABETS = {'K1': ['a', '(', ')', '\\', ' ', '"'], 'K2': ['a', '<', '>', '\\', ' ', ')'], 'K3': ['a', "'", '(', ')', ' ', '"'],
+                  'K4': ['a', '(', ')', ' ']}
+
+
+def link_syntax_layer(ck, m, quick):
+    """spec/LinkSyntax.tla: what may stand between "](" and ")" - destination in both forms, title in the three quoting styles,
+    whitespace, balanced parentheses, backslash escapes; every tail up to length 5 (quick) / 6 (thorough) over three alphabets."""
+    jobs = [('LinkSyntax%s%s.cfg' % (a, 'q' if quick else 't'), ch) for a, chars in sorted(LINK_ALPHABETS.items()) for ch in chars]
+
+    def one(job):
+        cfg, sh = job
+        return core.tlc('LinkSyntax', cfg, workers=1, env={'SHARD': sh}, timeout=3000, heap='2g')
+    with ThreadPoolExecutor(max_workers=core.NCPU) as ex:
+        results = list(ex.map(one, jobs))
+    n = links = 0
+    seen = set()
+    for res in results:
+        ck.add_tlc(res)
+        for rec in res.printed_json():
+            text = rec['input']
+            if text in seen:
+                continue
+            seen.add(text)
+            got = observed(m, text)
+            ck.count(('link-syntax', text))
+            n += 1
+            links += rec['link'] == 'yes'
+            ck.traces += 1
+            if n % 4099 == 1:
+                ck.sample({'input': text, 'expected': rec['html'], 'observed': got})
+            if got != rec['html']:
+                ck.violation('inline link syntax: input=%r expected=%r observed=%r' % (text, rec['html'], got),
+                             {'input': text, 'expected': rec['html'], 'observed': got, 'classes': sorted(rec['tags']),
+                              'clause': 'Inline.link-syntax' if not got.startswith('EXCEPTION') else 'Emphasis.failure'})
+    if n < 15000 or links < 1000:
+        raise core.MachineryError('LinkSyntax.tla exported only %d tails (%d links)' % (n, links))
+    ck.extra['link_syntax_tails'] = n
+    ck.extra['link_syntax_tails_that_are_links'] = links
 
 
 def batch(ck, recs, shard=2500):
